@@ -6,22 +6,32 @@ Import ListNotations.
 Open Scope string_scope.
 Set Implicit Arguments.
 
-Local Notation rq := (@rd_quat Qc).
-Definition rd_euler : rd Qc (Euler Qc) :=
+Section G.
+  Variable F : Type.
+  Variable O : Ops F.
+  Variable T : Trig F.
+  Variable A : Approx F.
+  Variable toNat : F -> nat.
+
+
+  Local Notation rq := (@rd_quat F).
+Definition rd_euler : rd F (Euler F) :=
   fun l => match l with a :: b :: c :: r => Some (mkEuler a b c, r) | _ => None end.
 
-Definition tab_c07 (o : Orc) : list (string * (list Qc -> val)) :=
-  let T := TrigQ o in [
-  ("m3_of_euler", run1 rd_euler (fun e => om3 (m3_of_euler O T (URad O) e)));
-  ("m4_of_euler", run1 rd_euler (fun e => om4 (m4_of_euler O T (URad O) e)));
-  ("basis3_of_euler", run1 rd_euler (fun e => om3 (basis3_of_euler O T (URad O) e)));
-  ("quat_of_euler", run1 rd_euler (fun e => oq (quat_of_euler O T (URad O) e)));
-  ("m3_of_euler_deg", run1 rd_euler (fun e => om3 (m3_of_euler O T (UDeg O) e)));
-  ("m4_of_euler_deg", run1 rd_euler (fun e => om4 (m4_of_euler O T (UDeg O) e)));
-  ("basis3_of_euler_deg", run1 rd_euler (fun e => om3 (basis3_of_euler O T (UDeg O) e)));
-  ("quat_of_euler_deg", run1 rd_euler (fun e => oq (quat_of_euler O T (UDeg O) e)));
-  ("euler_of_quat", run1 rq (fun q => vq (euler_list (euler_of_quat O T q))))
+Definition gtab_c07 : list (string * (list F -> gval F)) := [
+  ("m3_of_euler", grun1 rd_euler (fun e => gm3 (m3_of_euler O T (URad O) e)));
+  ("m4_of_euler", grun1 rd_euler (fun e => gm4 (m4_of_euler O T (URad O) e)));
+  ("basis3_of_euler", grun1 rd_euler (fun e => gm3 (basis3_of_euler O T (URad O) e)));
+  ("quat_of_euler", grun1 rd_euler (fun e => gq (quat_of_euler O T (URad O) e)));
+  ("m3_of_euler_deg", grun1 rd_euler (fun e => gm3 (m3_of_euler O T (UDeg O) e)));
+  ("m4_of_euler_deg", grun1 rd_euler (fun e => gm4 (m4_of_euler O T (UDeg O) e)));
+  ("basis3_of_euler_deg", grun1 rd_euler (fun e => gm3 (basis3_of_euler O T (UDeg O) e)));
+  ("quat_of_euler_deg", grun1 rd_euler (fun e => gq (quat_of_euler O T (UDeg O) e)));
+  ("euler_of_quat", grun1 rq (fun q => GQ (euler_list (euler_of_quat O T q))))
 ].
+End G.
+
+Definition tab_c07 (o : Orc) : list (string * (list Qc -> val)) := qtab (gtab_c07 OpsQ (TrigQ o)).
 
 Definition run_c07 : runner := fun f o args =>
   match dispatch (tab_c07 o) f with Some h => h args | None => VBad end.
